@@ -25,6 +25,7 @@ import (
 
 	"github.com/containerd/log"
 	"github.com/containerd/stargz-snapshotter/estargz"
+	"github.com/containerd/stargz-snapshotter/estargz/zstdchunked"
 	"github.com/containerd/stargz-snapshotter/fs/config"
 	"github.com/containerd/stargz-snapshotter/fs/layer"
 	digest "github.com/opencontainers/go-digest"
@@ -71,6 +72,9 @@ type LayerSpec struct {
 	Landmark    string
 	Desc        string
 	HasRoot     bool // the tar has an explicit root entry
+	// LandmarkOffset: blob offset of the prefetch landmark entry (LmPrefetch only, else -1),
+	// read from the TOC at build time; it is the size a prefetch of this layer really fetches.
+	LandmarkOffset int64
 	Packed      bool // built with MinChunkSize: small files share a stream with the first chunk of a following multi-chunk file
 }
 
@@ -163,7 +167,8 @@ func BuildLayer(rng *prng.R, to gen.Opts, bo blob.Opts, landmark string, forceRo
 	default:
 		return nil, fmt.Errorf("unknown landmark kind %q", landmark)
 	}
-	ls.Desc = fmt.Sprintf("landmark=%s %s blob=%dB files=%d prioritized=%q", landmark, ls.Built.Opts.Compression, len(ls.Built.Blob), len(ls.Files), ls.Prioritized)
+	ls.LandmarkOffset = landmarkOffset(ls.Built, landmark)
+	ls.Desc = fmt.Sprintf("landmark=%s@%d %s blob=%dB files=%d prioritized=%q", landmark, ls.LandmarkOffset, ls.Built.Opts.Compression, len(ls.Built.Blob), len(ls.Files), ls.Prioritized)
 	return ls, nil
 }
 
@@ -268,7 +273,8 @@ func BuildPacked(rng *prng.R, chunk, minChunk int, comp, landmark string) (*Laye
 		return nil, err
 	}
 	ls.Built = b
-	ls.Desc = fmt.Sprintf("packed landmark=%s %s chunk=%d minchunk=%d blob=%dB files=%d prioritized=%d", landmark, comp, chunk, minChunk, len(b.Blob), len(ls.Files), len(ls.Prioritized))
+	ls.LandmarkOffset = landmarkOffset(b, landmark)
+	ls.Desc = fmt.Sprintf("packed landmark=%s@%d %s chunk=%d minchunk=%d blob=%dB files=%d prioritized=%d", landmark, ls.LandmarkOffset, comp, chunk, minChunk, len(b.Blob), len(ls.Files), len(ls.Prioritized))
 	return ls, nil
 }
 
@@ -302,6 +308,7 @@ type poolItem struct {
 	Desc        string
 	HasRoot     bool
 	Packed      bool
+	LandmarkOffset int64
 }
 
 // SavePool / LoadPool let the top process build the pool once and hand it to its child
@@ -309,7 +316,7 @@ type poolItem struct {
 func SavePool(path string, pool []*LayerSpec) error {
 	var items []poolItem
 	for _, l := range pool {
-		items = append(items, poolItem{l.Entries, *l.Built, l.Prioritized, l.Landmark, l.Desc, l.HasRoot, l.Packed})
+		items = append(items, poolItem{l.Entries, *l.Built, l.Prioritized, l.Landmark, l.Desc, l.HasRoot, l.Packed, l.LandmarkOffset})
 	}
 	f, err := os.Create(path)
 	if err != nil {
@@ -332,7 +339,7 @@ func LoadPool(path string) ([]*LayerSpec, error) {
 	var res []*LayerSpec
 	for i := range items {
 		it := &items[i]
-		ls := &LayerSpec{Entries: it.Entries, FS: gen.Model(it.Entries), Built: &it.Built, Prioritized: it.Prioritized, Landmark: it.Landmark, Desc: it.Desc, HasRoot: it.HasRoot, Packed: it.Packed}
+		ls := &LayerSpec{Entries: it.Entries, FS: gen.Model(it.Entries), Built: &it.Built, Prioritized: it.Prioritized, Landmark: it.Landmark, Desc: it.Desc, HasRoot: it.HasRoot, Packed: it.Packed, LandmarkOffset: it.LandmarkOffset}
 		ls.Files = ls.FS.RegularFiles()
 		res = append(res, ls)
 	}
@@ -369,6 +376,40 @@ func pathDir(p string) string {
 		return ""
 	}
 	return p[:i]
+}
+
+// landmarkOffset reads the blob offset of the prefetch landmark from the TOC (-1 when the
+// layer has none or it cannot be read). The estargz reader is used for this; the value is
+// cross-checked against Info().PrefetchSize wherever a verdict depends on it.
+func landmarkOffset(b *blob.Built, landmark string) int64 {
+	if landmark != LmPrefetch {
+		return -1
+	}
+	r, err := estargz.Open(b.SectionReader(), estargz.WithDecompressors(new(zstdchunked.Decompressor)))
+	if err != nil {
+		return -1
+	}
+	e, ok := r.Lookup(estargz.PrefetchLandmark)
+	if !ok {
+		return -1
+	}
+	return e.Offset
+}
+
+// RealPrefetchSize is the size a Prefetch(configured) of this layer really covers: nothing
+// for a no-prefetch layer, the landmark offset, or the configured size capped at the blob
+// size. -1 = unknown.
+func (ls *LayerSpec) RealPrefetchSize(configured int64) int64 {
+	switch ls.Landmark {
+	case LmNoPrefetch:
+		return 0
+	case LmPrefetch:
+		return ls.LandmarkOffset
+	}
+	if size := int64(len(ls.Built.Blob)); configured > size {
+		return size
+	}
+	return configured
 }
 
 // WriterBuild builds a gzip eStargz with estargz.Writer directly: such blobs carry no
